@@ -8,6 +8,7 @@ from . import base
 from .c06 import FIXED
 
 PROP = "C02"
+SOLVER = {'functions_encoded': ['stationeers_pytrapic.compiler.compile_code under 32 option vectors (executed; outputs are the object of the encoding)', 'emitted IC10 programs -> vf.ic10.Machine (symbolic), pairwise trace equivalence']}
 
 ASSUMPTIONS = [
     "each program is compiled under all 2^5 vectors of (inline_functions, remove_labels, compact, tail_call_optimization, use_push_pop_functions); outputs are loaded and reduced to a label-free, token-free canonical form; one representative per distinct canonical program is compared with the default vector's output on the symbolic IC10 machine (all inputs, z3) - vectors with identical canonical form are equal by construction",
